@@ -10,6 +10,7 @@
 //!   4 on_explicit_congestion(ce_count = a)
 //!   5 on_mtu_update(a)
 //!   6 on_packet_discarded(a)
+//!   7 on_rtt_update(packet sent b microseconds before now, latest rtt sample c)  [ignored for BBR]
 use core::time::Duration;
 use h_common::{main_with, V};
 use s2n_quic_core::{
@@ -139,6 +140,18 @@ where
             4 => cc.on_explicit_congestion(a as u64, now, &mut publisher),
             5 => cc.on_mtu_update(a as u16, &mut publisher),
             6 => cc.on_packet_discarded(a as usize, &mut publisher),
+            7 => {
+                let back = (b as u64).min(env.now);
+                let sent = ts(env.now - back);
+                env.rtt.update_rtt(
+                    Duration::ZERO,
+                    Duration::from_micros((c as u64).max(1)),
+                    now,
+                    true,
+                    PacketNumberSpace::ApplicationData,
+                );
+                cc.on_rtt_update(sent, now, &env.rtt, &mut publisher);
+            }
             _ => {}
         }
         out.extend(observe(cc));
@@ -168,6 +181,8 @@ fn cubic_row(cc: &CubicCongestionController) -> Vec<V> {
         uu,
         cc.requires_fast_retransmission() as V,
         cc.is_congestion_limited() as V,
+        fx(field(&dbg, "slow_start").and_then(|t| field(t, "threshold"))),
+        num(field(&dbg, "slow_start").and_then(|t| field(t, "sample_count"))),
     ]
 }
 
